@@ -432,10 +432,16 @@ static int ctx_new(const char *ctx_name, m_ctx_flags flags, const void *userdata
 
 /** Private API **/
 
-m_ctx_t *m_ctx(void) {
+/* The context of the calling thread, whoever asks: used to tell whether a module belongs to the caller's thread */
+m_ctx_t *m_thread_ctx(void) {
     /* Key must exist, even if no context was ever registered */
     pthread_once(&key_once, make_key);
-    m_ctx_t *c = pthread_getspecific(key);
+    return pthread_getspecific(key);
+}
+
+/* The context as seen by the context API: hidden from the callbacks of a M_MOD_DENY_CTX module */
+m_ctx_t *m_ctx(void) {
+    m_ctx_t *c = m_thread_ctx();
     if (c && c->curr_mod) {
         M_RET_ASSERT(!(c->curr_mod->flags & M_MOD_DENY_CTX), NULL);
     }
